@@ -94,6 +94,9 @@ pub enum Case {
     Word { word: String },
     Bare { variant: String, name: String },
     Expr { text: String, parts: Vec<Part> },
+    /// Two unit expressions in ONE query (`(1 a) (1 b)`), b being a written with its blanks closed up or
+    /// opened: each must be read exactly as it is read alone, in either order.
+    ExprPair { a: String, b: String },
 }
 
 /// Part of a generated unit expression (so a replay does not need the generator).
@@ -622,8 +625,50 @@ fn expr_parts(max_power: i32) -> impl Strategy<Value = Vec<Part>> {
     })
 }
 
+fn reading_alone(text: &str) -> Result<Option<Mirror>, String> {
+    let q = format!("1 {}", text);
+    Ok(match run(shared_db(), &q)?.as_slice() {
+        [R::Ok(v)] => Some(v.unit.clone()),
+        _ => None,
+    })
+}
+
+fn check_expr_pair(a: &str, b: &str) -> CaseReport {
+    let key = format!("({}) ({})", a, b);
+    let (ra, rb) = match (reading_alone(a), reading_alone(b)) {
+        (Ok(x), Ok(y)) => (x, y),
+        (Err(p), _) | (_, Err(p)) => return CaseReport::fail(key, "panic", json!({"a": a, "b": b, "panic": p})),
+    };
+    for (x, y, rx, ry) in [(a, b, &ra, &rb), (b, a, &rb, &ra)] {
+        let q = format!("(1 {}) (1 {})", x, y);
+        let rs = match run(shared_db(), &q) {
+            Ok(r) => r,
+            Err(p) => return CaseReport::fail(key, "panic", json!({"query": q, "panic": p})),
+        };
+        if rs.len() != 2 {
+            return CaseReport::fail(key, "result-count", json!({"query": q, "got": results_json(&rs)}));
+        }
+        for (i, (r, alone, text)) in [(&rs[0], rx, x), (&rs[1], ry, y)].into_iter().enumerate() {
+            let got = match r {
+                R::Ok(v) => Some(v.unit.clone()),
+                _ => None,
+            };
+            if got != *alone {
+                return CaseReport::fail(
+                    key,
+                    "unit-expression-read-differently-next-to-another",
+                    json!({"query": q, "result": i, "expression": text, "read_here": got.as_ref().map(mirror_json), "read_alone": alone.as_ref().map(mirror_json)}),
+                );
+            }
+        }
+    }
+    let differ = ra != rb;
+    CaseReport::pass(key, differ, vec![if differ { "pair-with-different-readings" } else { "pair-with-equal-readings" }])
+}
+
 fn check(c: &Case) -> CaseReport {
     match c {
+        Case::ExprPair { a, b } => check_expr_pair(a, b),
         Case::Definition { variant } => check_definition(variant),
         Case::DefinitionPower { variant, power } => check_definition_power(variant, *power),
         Case::DefinitionContext { variant, target } => check_definition_context(variant, target),
@@ -635,7 +680,7 @@ fn check(c: &Case) -> CaseReport {
 }
 
 pub fn run_check(ctx: &Ctx) {
-    ctx.set_rule("(1) all 86 unit definitions: `1 <name> to <SI base expression>` must equal an accepted standard scale — also under powers, in front of every target dimension of the vocabulary (accepted exactly when the dimensions agree) and as a divisor inside a cast expression (hand-written table: SI brochure, 1959 yard/pound agreement, NIST HB44, CODATA, IAU); (2) every typable [prefix]name word of data.toml: if accepted, its reading must be one of the segmentations of the word into documented prefix/unit names, and both entry points must agree; (3) every typable unit name alone denotes its own variant; (4) generated unit expressions (juxtaposition, blanks, * / ^n) against the stated semantics; non-trivial = prefixed or multi-unit word, expression with / or ^ or several words; distinct by text");
+    ctx.set_rule("(1) all 86 unit definitions: `1 <name> to <SI base expression>` must equal an accepted standard scale — also under powers, in front of every target dimension of the vocabulary (accepted exactly when the dimensions agree) and as a divisor inside a cast expression (hand-written table: SI brochure, 1959 yard/pound agreement, NIST HB44, CODATA, IAU); (2) every typable [prefix]name word of data.toml: if accepted, its reading must be one of the segmentations of the word into documented prefix/unit names, and both entry points must agree; (3) every typable unit name alone denotes its own variant; (4) generated unit expressions (juxtaposition, blanks, * / ^n) against the stated semantics; (5) pairs of unit expressions that differ only in where blanks stand, evaluated in one query in both orders: each must be read as it is read alone; non-trivial = prefixed or multi-unit word, expression with / or ^ or several words; distinct by text");
     ctx.assume("accepted-scale sets are deliberately generous (several national definitions per name); untypable names (μ, Ω, g-force) are skipped and counted");
     let corpus: Vec<(String, Case)> = load_corpus("C05");
     let cases: Vec<Case> = corpus.into_iter().map(|c| c.1).collect();
@@ -686,6 +731,45 @@ pub fn run_check(ctx: &Ctx) {
         check,
         |c| to_json(c),
     );
+    ctx.run_gen(
+        "expression-pairs-in-one-query",
+        || {
+            expr_parts(3).prop_map(|parts| {
+                // b = a with every blank closed up and every juxtaposition opened
+                let mut other = parts.clone();
+                for p in other.iter_mut().skip(1) {
+                    if p.sep == " " {
+                        p.sep = String::new();
+                    } else if p.sep.is_empty() {
+                        p.sep = " ".to_string();
+                    }
+                }
+                Case::ExprPair { a: render_parts(&parts), b: render_parts(&other) }
+            })
+        },
+        n / 4,
+        check,
+        |c| to_json(c),
+    );
+    // ... and exhaustively for every pair of short words (<= 2 characters) whose juxtaposition is itself a
+    // word the tool accepts with another reading (`m s` / `ms`, `T m` / `Tm`, `h a` / `ha`)
+    {
+        let short: Vec<&str> = w.all.iter().filter(|x| x.tool_reading.is_some() && x.word.text.chars().count() <= 2).map(|x| x.word.text.as_str()).collect();
+        let mut pairs: Vec<Case> = Vec::new();
+        for x in &short {
+            for y in &short {
+                let glued = format!("{}{}", x, y);
+                let apart = format!("{} {}", x, y);
+                if let (Ok(Ok(g)), Ok(Ok(a))) = (parse_compound(&glued), parse_compound(&apart)) {
+                    if g != a {
+                        pairs.push(Case::ExprPair { a: apart, b: glued });
+                    }
+                }
+            }
+        }
+        ctx.put("confusable_juxtapositions", json!(pairs.len()));
+        ctx.run_list("confusable-juxtapositions-in-one-query", &pairs, check, |c| to_json(c));
+    }
     if ctx.tier == crate::runner::Tier::Thorough {
         // all 2-unit concatenations of short bare names
         let short: Vec<String> = v.units.iter().flat_map(|u| u.names.iter()).filter(|n| typable_word(n) && n.chars().count() <= 3).cloned().collect();
